@@ -19,7 +19,9 @@ RULE = ('tree-shaped molecules with 1-3 stereo double bonds (geometry chosen by 
         'order. Oracle: every atom of the result is traced through its mapping entry to the generator atom; the set of '
         '(substituent, atom, atom, substituent, cis|trans) references and the set of (atom, R|S) labels must equal the '
         'generator\'s, for the uncut molecule and for every cut/permutation; every stored reference must be a path '
-        'substituent-atom=atom-substituent of the result (post-state contract, all workloads). distinct = (feature set, '
+        'substituent-atom=atom-substituent of the result (post-state contract, all workloads). Polymer-style chains of stereo '
+        'units joined by order-2 descriptors whose fragment names repeat with others in between (A B A): same annotations as '
+        'the chain in which every coarse node has a name of its own. distinct = (feature set, '
         '#double bonds, #fragments, permutation class); non-trivial = at least one cut.')
 ASSUMPTIONS = ['a slash mark and both atoms next to it stay in one fragment (conservative reading of the quantifier)',
                'marked atoms of different double bonds are neither shared nor adjacent, marked substituents carry no double bond',
@@ -168,9 +170,63 @@ def make_case(rng):
                 order_index={str(k): v for k, v in order_index.items()})
 
 
+CAPS = ['[$]=C/F', '[$]=C\\F', 'F/C=[$]', 'F\\C=[$]', '[$]=C(C)/Cl', 'C(\\F)=[$]', 'C(/Cl)(C)=[$]', '[$]=C(/C)CC', 'CC(/F)=[$]']
+MIDS = ['[$]=C(C)/C=[$]', '[$]=C(C)\\C=[$]', '[$]=C/C=C/C=[$]', '[$]=C(\\C)C=[$]', '[$]=C(C)/C(C)=[$]', 'C(=[$])(/C)C(\\F)=[$]', '[$]=C/CC/C=[$]']
+
+
+def repeated_units_case(rng):
+    """polymer-style chains whose fragment NAMES repeat with other fragments in between (A B A, A B C B A); every bond
+    between units is a stereo double bond made by order-2 descriptors.  Metamorphic partner: the same chain with every
+    coarse node under a name of its own (same definitions)"""
+    caps = rng.sample(CAPS, 2)
+    mids = rng.sample(MIDS, 2)
+    lib = {'A': caps[0], 'E': caps[1], 'B': mids[0], 'D': mids[1]}
+    n_mid = rng.randint(1, 4)
+    chain = [rng.choice('AE')] + [rng.choice('BD') for _ in range(n_mid)] + [rng.choice('AE')]
+    if len(set(chain)) == len(chain):
+        chain[-1] = chain[0]
+    used = sorted(set(chain))
+    items = ['#%s=%s' % (k, lib[k]) for k in used]
+    rng.shuffle(items)
+    shared = '{' + ''.join('[#%s]' % k for k in chain) + '}.{' + ','.join(items) + '}'
+    own = ['%s%d' % (k, i) for i, k in enumerate(chain)]
+    items2 = ['#%s=%s' % (o, lib[k]) for o, k in zip(own, chain)]
+    rng.shuffle(items2)
+    distinct = '{' + ''.join('[#%s]' % o for o in own) + '}.{' + ','.join(items2) + '}'
+    return dict(kind='repeated_units', shared=shared, distinct=distinct, nfrag=len(chain),
+                features=['fragment_name_repeats_with_others_in_between', 'cut_at_stereo_double_bond_polymer_style', 'units_%d' % len(chain)])
+
+
+def run_repeated(case):
+    from cgsmiles import MoleculeResolver
+    contracts.clear()
+    viol = []
+    out = {}
+    for tag in ('shared', 'distinct'):
+        try:
+            cg, aa = MoleculeResolver.from_string(case[tag]).resolve()
+            out[tag] = (sorted((n, sorted(v)) for n, v in aa.nodes(data='ez_isomer') if v),
+                        sorted((n, d.get('element')) for n, d in aa.nodes(data=True)))
+        except ValueError as err:
+            out[tag] = ('ValueError', str(err)[:60])      # conflicting / dangling marks in this combination of units
+        except Exception as err:
+            viol.append(V('c15.cut_exception.' + type(err).__name__, f'{case[tag]} raised {type(err).__name__}: {err}'))
+            out[tag] = None
+    if out['shared'] is not None and out['distinct'] is not None and out['shared'] != out['distinct']:
+        viol.append(V('c15.depends_on_fragment_name_sharing', f'{case["shared"]} gives {out["shared"][0]}, but with a name of its own for every coarse node '
+                      f'(same definitions, same order) {case["distinct"]} gives {out["distinct"][0]}'))
+    for rec in contracts.take('C15'):
+        viol.append(V(rec['clause'], f'{case["shared"]} :: {rec["msg"]}'))
+    contracts.clear()
+    return {'violations': viol, 'nontrivial': out.get('shared') not in (None,) and out['shared'][0] != 'ValueError', 'sample': case['shared'],
+            'cls': ('repeated_units', case['nfrag'], case['shared'].split('}.{')[0])}
+
+
 def cases(seed, tier, shard, nshards):
     rng = random.Random(f'{seed}:C15:{tier}:{shard}')
     made = 0
+    for _ in range((SIZES[tier] // 6) // nshards):
+        yield repeated_units_case(rng)
     for _ in range((SIZES[tier] // 8) // nshards):
         c = MC.random_marked_cut_case(rng, both_sides=True)
         if c is not None:
@@ -290,6 +346,8 @@ def run_marked(case):
 def run(case):
     if case.get('kind') == 'marked_cut':
         return run_marked(case)
+    if case.get('kind') == 'repeated_units':
+        return run_repeated(case)
     from cgsmiles import MoleculeResolver
     contracts.clear()
     viol = []
